@@ -152,6 +152,10 @@ func (c *Collection) add(key string, exp Exp, val []byte, isJSON bool) (added bo
 	if err = checkDocSize(len(val)); err != nil {
 		return false, err
 	}
+	if val == nil {
+		// A nil value is an empty body. Only a deletion stores NULL, which every reader takes for "no document".
+		val = []byte{}
+	}
 	var casOut CAS
 	err = c.withNewCas(func(txn *sql.Tx, newCas CAS) (e *event, err error) {
 		exp = absoluteExpiry(exp)
@@ -203,6 +207,10 @@ func (c *Collection) SetRaw(key string, exp Exp, opts *sgbucket.UpsertOptions, v
 func (c *Collection) set(key string, exp Exp, opts *sgbucket.UpsertOptions, val []byte, isJSON bool) (err error) {
 	if err = checkDocSize(len(val)); err != nil {
 		return err
+	}
+	if val == nil {
+		// A nil value is an empty body. Only a deletion stores NULL, which every reader takes for "no document".
+		val = []byte{}
 	}
 	return c.withNewCas(func(txn *sql.Tx, newCas CAS) (*event, error) {
 		exp = absoluteExpiry(exp)
@@ -294,6 +302,9 @@ func (c *Collection) Touch(key string, exp Exp) (cas CAS, err error) {
 func (c *Collection) Add(key string, exp Exp, val any) (added bool, err error) {
 	traceEnter("Add", "%q, %v", key, val)
 	raw, err := encodeAsRaw(val, true)
+	if err == nil && raw == nil {
+		raw = []byte("null") // json.Marshal(nil)
+	}
 	if err == nil {
 		added, err = c.add(key, exp, raw, true)
 	}
@@ -304,6 +315,9 @@ func (c *Collection) Add(key string, exp Exp, val any) (added bool, err error) {
 func (c *Collection) Set(key string, exp Exp, opts *sgbucket.UpsertOptions, val any) (err error) {
 	traceEnter("Set", "%q, %v", key, val)
 	raw, err := encodeAsRaw(val, true)
+	if err == nil && raw == nil {
+		raw = []byte("null") // json.Marshal(nil)
+	}
 	if err == nil {
 		err = c.set(key, exp, opts, raw, true)
 	}
